@@ -46,6 +46,9 @@ def cls_specs():
       'pd_acc2': {'name': 'PerDomainMetric', 'base': {'name': 'Accuracy'}, 'num_domains': 2},
       'pd_ce3': {'name': 'PerDomainMetric', 'base': {'name': 'CrossEntropyLoss'}, 'num_domains': 3},
       'pd_cm2': {'name': 'PerDomainMetric', 'base': {'name': 'ConfusionMatrix', 'num_classes': 3}, 'num_domains': 2},
+      # per-domain wrappers with the same num_domains around different base metrics whose own field values coincide
+      'pd_ce2': {'name': 'PerDomainMetric', 'base': {'name': 'CrossEntropyLoss'}, 'num_domains': 2},
+      'pd_acc3': {'name': 'PerDomainMetric', 'base': {'name': 'Accuracy'}, 'num_domains': 3},
   }
 
 
@@ -58,6 +61,8 @@ def seq_specs():
       'len': {'name': 'SequenceLength'},
       'pd_tokacc': {'name': 'PerDomainMetric', 'base': {'name': 'SequenceTokenAccuracy'}, 'num_domains': 2},
       'pd_count': {'name': 'PerDomainMetric', 'base': {'name': 'SequenceTokenCount'}, 'num_domains': 3},
+      'pd_nseq': {'name': 'PerDomainMetric', 'base': {'name': 'SequenceCount'}, 'num_domains': 3},
+      'pd_len': {'name': 'PerDomainMetric', 'base': {'name': 'SequenceLength'}, 'num_domains': 3},
   }
   for pp in (False, True):
     s = '_pp' if pp else ''
@@ -65,7 +70,11 @@ def seq_specs():
     out['tok_acc' + s] = {'name': 'SequenceTokenAccuracy', 'per_position': pp}
     out['tok_acc_lm' + s] = {'name': 'SequenceTokenAccuracy', 'per_position': pp, 'logits_mask': lm,
                              'masked_target_values': [0, 1]}
+    # twins that differ in ONE field only (the jitted evaluation is keyed on the metric object's equality / hash)
+    out['tok_acc_lm_b' + s] = {'name': 'SequenceTokenAccuracy', 'per_position': pp, 'logits_mask': [NINF, 0.0, 0.0],
+                               'masked_target_values': [0, 1]}
     out['tok_top2' + s] = {'name': 'SequenceTokenTopKAccuracy', 'k': 2, 'per_position': pp}
+    out['tok_top2_lm' + s] = {'name': 'SequenceTokenTopKAccuracy', 'k': 2, 'per_position': pp, 'logits_mask': [0.0, NINF, 0.0]}
     out['oov' + s] = {'name': 'SequenceTokenOOVRate', 'oov_target_values': [1], 'per_position': pp}
   return out
 
